@@ -32,6 +32,19 @@ class Child(HasTraits):
     children = List(Instance("Child"))
 
 
+class EqChild(Child):
+    """Items with VALUE-BASED equality (a fixed group number, so the hash never changes): two pool members of one group
+    are equal but distinct objects with different `value`s - replacing one by the other in a container is a change of the
+    computed property although `old == new`."""
+    grp = Int
+
+    def __eq__(self, other):
+        return isinstance(other, EqChild) and self.grp == other.grp
+
+    def __hash__(self):
+        return hash(("EqChild", self.grp))
+
+
 def count(name):
     CALLS[name] = CALLS.get(name, 0) + 1
 
@@ -154,6 +167,7 @@ OP = st.one_of(
     st.tuples(st.just("slice_mult"), st.integers(0, 2), st.integers(0, 3), st.integers(0, 3)),
     st.tuples(st.just("slice_mult"), st.integers(0, 2), st.integers(0, 3), st.integers(0, 3)),
     st.tuples(st.just("reverse")),
+    st.tuples(st.just("setitem"), I4, I4), st.tuples(st.just("setitem"), I4, I4),
     st.tuples(st.just("append_bare")),
     st.tuples(st.just("table_set"), st.sampled_from("ab"), I4), st.tuples(st.just("table_pop"), st.sampled_from("ab")),
     st.tuples(st.just("table_update"), st.lists(st.tuples(st.sampled_from("abc"), I4).map(list), max_size=3)),
@@ -172,6 +186,7 @@ def strategy(tier):
         "ops": st.lists(OP, min_size=1, max_size=25),
         "subclass": st.sampled_from([False, False, True]),
         "any_only": st.booleans(),
+        "eqnodes": st.sampled_from([False, False, True]),
     })
 
 
@@ -181,7 +196,24 @@ def run(case, ctx):
         ctx.label("subclass-overriding-getters")
     # half of the pool has an explicitly assigned empty `children` list (an unmaterialised default is documented not to
     # be observed until read; an explicit empty container must be)
-    pool = [Child(value=i, children=[]) if e else Child(value=i) for i, e in enumerate(case["explicit_empty"])]
+    eqnodes = bool(case.get("eqnodes"))
+    if eqnodes:
+        # pool members 0/2 and 1/3 compare equal (and hash alike) but are distinct objects with different values
+        ctx.label("value-equal-items")
+        pool = [EqChild(value=i, grp=i % 2, children=[]) if e else EqChild(value=i, grp=i % 2)
+                for i, e in enumerate(case["explicit_empty"])]
+    else:
+        pool = [Child(value=i, children=[]) if e else Child(value=i) for i, e in enumerate(case["explicit_empty"])]
+
+    def equal_not_same(new, old):
+        """A whole-value assignment of an equal but different object is, under the default comparison mode, documented
+        not to be a change (no notification although the new object is stored): outside the statement, not generated."""
+        if not eqnodes or new is old:
+            return False
+        try:
+            return bool(new == old)
+        except Exception:
+            return False
     ev = []
     with_handlers = case["handlers"]
 
@@ -237,7 +269,7 @@ def run(case, ctx):
                     if not any(cc is s for s in seen):
                         seen.append(cc)
             while len(seen) < 4:
-                seen.append(Child(value=len(seen), children=[]))
+                seen.append(EqChild(value=len(seen), grp=len(seen) % 2, children=[]) if eqnodes else Child(value=len(seen), children=[]))
             o = o2
             pool = seen
             attach(o)
@@ -252,7 +284,10 @@ def run(case, ctx):
         if k == "set_a":
             o.a = op[1]
         elif k == "set_child":
-            o.child = None if op[1] < 0 else pool[op[1] % n]
+            new = None if op[1] < 0 else pool[op[1] % n]
+            if equal_not_same(new, o.child):
+                continue
+            o.child = new
             interesting = True
             ctx.label("intermediate-replaced")
         elif k == "set_child_fresh":
@@ -291,7 +326,10 @@ def run(case, ctx):
                 if any(x is y for y in o.children):
                     removed_once.add(id(x))
         elif k == "set_children":
-            o.children = [pool[i % n] for i in op[1]]
+            new = [pool[i % n] for i in op[1]]
+            if equal_not_same(new, list(o.children)):
+                continue
+            o.children = new
         elif k == "slice_mult":
             c = o.children
             if op[1] < len(c):
@@ -303,6 +341,9 @@ def run(case, ctx):
                     removed_once.add(id(x))
         elif k == "reverse":
             o.children.reverse()
+        elif k == "setitem":
+            if o.children:
+                o.children[op[1] % len(o.children)] = pool[op[2] % n]
         elif k == "append_bare":
             # the observers raise (no trait `value`) - after the list has changed; properties must still not be stale
             try:
@@ -326,6 +367,9 @@ def run(case, ctx):
                              % (p_, getattr(o, p_), now[p_]))
             continue          # (two changes happened inside this step: the per-change getter count does not apply)
         elif k == "table_set":
+            if eqnodes and op[1] in o.table and o.table[op[1]] is not pool[op[2] % n] and o.table[op[1]] == pool[op[2] % n]:
+                interesting = True
+                ctx.label("dict-value-replaced-by-equal-object")
             o.table[op[1]] = pool[op[2] % n]
         elif k == "table_pop":
             o.table.pop(op[1], None)
@@ -334,7 +378,20 @@ def run(case, ctx):
         elif k == "group_add":
             o.group.add(pool[op[1] % n])
         elif k == "group_discard":
-            o.group.discard(pool[op[1] % n])
+            x = pool[op[1] % n]
+            if eqnodes and any(m is not x and m == x for m in o.group):
+                # F55: discard / remove report the ARGUMENT, not the equal stored member, as `removed`; the observers then
+                # unhook an object they never hooked (NotifierNotFound reaches the caller of a legal discard)
+                if "set-removal/equal-argument-reported" in ctx.active_known:
+                    ctx.exclude("set discard through an equal but not identical object (F55)")
+                    continue
+                try:
+                    o.group.discard(x)
+                except Exception as e:
+                    ctx.fail("set-removal/equal-argument-reported", "group.discard(<object equal to, but not identical with, the member>) "
+                             "raised %r; group=%r c_group=%r" % (e, sorted(c.value for c in o.group), o.c_group))
+            else:
+                o.group.discard(x)
         elif k == "nested_append":
             c, x = pool[op[1] % n], pool[op[2] % n]
             if c is x:
@@ -342,7 +399,10 @@ def run(case, ctx):
             c.children.append(x)
         elif k == "nested_set":
             c = pool[op[1] % n]
-            c.children = [pool[i % n] for i in op[2] if pool[i % n] is not c]
+            new = [pool[i % n] for i in op[2] if pool[i % n] is not c]
+            if equal_not_same(new, list(c.children)):
+                continue
+            c.children = new
         elif k == "nested_pop":
             c = pool[op[1] % n]
             if c.children:
